@@ -313,4 +313,10 @@ theorem pressureS2_zero_iff_jump (s : EOS) (ic : NohIC) (ρ x D : ℝ) (hic : ic
     · exact f1
     · exact f2
 
+/-- non-vacuity: the default initial state is admissible in every symmetry, and the hypotheses ρ ≠ 0, D ≠ 0 hold at the
+classical Noh state (64, 1/2, 1/3) -/
+example : (⟨1, -1, 0⟩ : NohIC).Admissible 0 ∧ (⟨1, -1, 0⟩ : NohIC).Admissible 1 ∧ (⟨1, -1, 0⟩ : NohIC).Admissible 2
+    ∧ (64 : ℝ) ≠ 0 ∧ (1 / 3 : ℝ) ≠ 0 := by
+  refine ⟨⟨?_, ?_, ?_, ?_⟩, ⟨?_, ?_, ?_, ?_⟩, ⟨?_, ?_, ?_, ?_⟩, ?_, ?_⟩ <;> norm_num
+
 end EPV.C02
